@@ -1,4 +1,74 @@
-import GcmpyModel.Model.Automated
+import GcmpyModel.Lemmas.AutomatedExact
+/-!
+# C15 — the automated equation is the exact bond-percolation expectation
+
+Model: `GcmpyModel/Model/Automated.lean` (`automatedEquation`, generic over the number type).
+Vocabulary and glue lemmas: `GcmpyModel/Lemmas/AutomatedExact.lean`; structural specifications
+(`connectedSubgraphs_spec`, `edgeCombinations_spec`, `inner_spec`): `GcmpyModel/Lemmas/ConnectedSubgraphs.lean`;
+the finset-level percolation identity `Perc.exactE_eq_autoE`: `GcmpyModel/Lemmas/Percolation.lean`.
+
+* `Simple es`  : the edge list is duplicate free, has no self-loop and lists every undirected edge once;
+* `exactE G p u root` : `Σ_{A ⊆ edges} p^|A| (1-p)^(|E|-|A|) Π_{v ∈ comp_A(root), v ≠ root} u v`, the expectation over
+  independent occupation of each motif edge, written with the model's own `sublists` and executable `comp`.
+-/
 namespace Gcmpy.Automated
-theorem placeholder_c15 : True := trivial
+open Gcmpy Gcmpy.Graph
+
+/-- **C15.** On a well-formed simple motif (any size, connected or not) and over any commutative ring, the value
+computed by `automated_equation` — sum over the connected vertex sets `c ∋ root`, over the edge subsets whose
+removal keeps `c` connected, of `p^kept (1-p)^removed (1-p)^interface Π_{v ∈ c, v ≠ root} u v` — is exactly the
+bond-percolation expectation of `Π u` over the root's open component. -/
+theorem automated_exact {R : Type} [CommRing R] (G : Motif) (hwf : WFGraph G.edges G.nodes)
+    (hs : Simple G.edges) {root : Nat} (hr : root ∈ G.nodes) (p : R) (u : Nat → R) :
+    automatedEquation G p u root = exactE G p u root := by
+  rw [exactE_eq_percAutoE G hwf hs.1 hr, percAutoE_eq_automatedEquation G hwf hs hr]
+
+/-- at `p = 0` nothing is occupied: the value is `1` -/
+theorem automated_at_zero {R : Type} [CommRing R] (G : Motif) (hwf : WFGraph G.edges G.nodes)
+    (hs : Simple G.edges) {root : Nat} (hr : root ∈ G.nodes) (u : Nat → R) :
+    automatedEquation G (0 : R) u root = 1 := by
+  rw [automated_exact G hwf hs hr, exactE_eq_percExactE G hwf hs.1 hr, Perc.exactE_at_zero]
+
+/-- the finset form of the specification: the model's value is `Σ_{A ⊆ E} wt(A) Π_{v ∈ C_A(root) \ root} u v` -/
+theorem automated_exact_finset {R : Type} [CommRing R] (G : Motif) (hwf : WFGraph G.edges G.nodes)
+    (hs : Simple G.edges) {root : Nat} (hr : root ∈ G.nodes) (p : R) (u : Nat → R) :
+    automatedEquation G p u root = Perc.exactE G.nodes.toFinset G.edges.toFinset p u root := by
+  rw [automated_exact G hwf hs hr, exactE_eq_percExactE G hwf hs.1 hr]
+
+/-! ### non-vacuity: kernel-checked evaluations of both sides -/
+
+def triangle : Motif := ⟨[0, 1, 2], [(0, 1), (1, 2), (0, 2)]⟩
+def cycle4 : Motif := ⟨[0, 1, 2, 3], [(0, 1), (1, 2), (2, 3), (3, 0)]⟩
+
+example : WFGraph triangle.edges triangle.nodes := by unfold WFGraph triangle; decide
+example : Simple triangle.edges := by unfold Simple triangle; decide
+example : WFGraph cycle4.edges cycle4.nodes := by unfold WFGraph cycle4; decide
+example : Simple cycle4.edges := by unfold Simple cycle4; decide
+
+/-- path 0-1-2 plus the isolated vertex 3 (a disconnected motif), rooted at the middle of the path -/
+def pathIso : Motif := ⟨[0, 1, 2, 3], [(0, 1), (1, 2)]⟩
+example : WFGraph pathIso.edges pathIso.nodes := by unfold WFGraph pathIso; decide
+example : Simple pathIso.edges := by unfold Simple pathIso; decide
+
+/-- triangle, `p = 3`, `u v = v + 3` over `ℤ`: both sides evaluate to the same number -/
+example : automatedEquation triangle (3 : Int) (fun v => (v : Int) + 3) 0 = -428 := by decide +kernel
+example : exactE triangle (3 : Int) (fun v => (v : Int) + 3) 0 = -428 := by decide +kernel
+/-- 4-cycle -/
+example : automatedEquation cycle4 (3 : Int) (fun v => (v : Int) + 3) 0 = -13412 := by decide +kernel
+example : exactE cycle4 (3 : Int) (fun v => (v : Int) + 3) 0 = -13412 := by decide +kernel
+/-- a disconnected motif -/
+example : automatedEquation pathIso (3 : Int) (fun v => (v : Int) + 3) 1 = 91 := by decide +kernel
+example : exactE pathIso (3 : Int) (fun v => (v : Int) + 3) 1 = 91 := by decide +kernel
+/-- 4-cycle at a genuine probability, over `ℚ` -/
+example : automatedEquation cycle4 (1/3 : Rat) (fun v => 1 / ((v : Rat) + 2)) 0 = 289 / 540 := by decide +kernel
+example : exactE cycle4 (1/3 : Rat) (fun v => 1 / ((v : Rat) + 2)) 0 = 289 / 540 := by decide +kernel
+
+/-- the hypothesis `Simple` is needed: listing the edge `0-1` in both orientations makes the model count
+the root's neighbour once (`len(G.neighbors)`) while two independent edges lead to it -/
+example : automatedEquation ⟨[0, 1], [(0, 1), (1, 0)]⟩ (2 : Int) (fun _ => 5) 0
+    ≠ exactE ⟨[0, 1], [(0, 1), (1, 0)]⟩ (2 : Int) (fun _ => 5) 0 := by decide +kernel
+
 end Gcmpy.Automated
+
+#print axioms Gcmpy.Automated.automated_exact
+#print axioms Gcmpy.Automated.automated_at_zero
